@@ -618,18 +618,21 @@ func runC16(c *core.Ctx) {
 		eofs    []bool
 		extra   []c16Msg // appended to connection 0's script
 		maxMsgs int
+		share   string // "remote": all connections have the same remote endpoint (one client port probing several sensor ports)
 	}
 	scens := []scen{
-		{"1 connection", [][]int{{0, 1, 4000}}, []bool{true}, nil, 10},
-		{"2 connections", [][]int{{1, 4000}, {4000, 0}}, []bool{true, true}, nil, 10},
-		{"2 connections, one stays open", [][]int{{3, 5}, {7}}, []bool{true, false}, nil, 10},
-		{"3 connections", [][]int{{1}, {4000}, {2}}, []bool{true, true, false}, nil, 10},
-		{"2 connections + stray data + ping", [][]int{{4}, {6}}, []bool{true, true}, []c16Msg{{0, "stray", 0}, {0, "ping", 0}}, 10},
-		{"2 connections, first stays open", [][]int{{5, 6}, {1}}, []bool{false, true}, nil, 10},
+		{"1 connection", [][]int{{0, 1, 4000}}, []bool{true}, nil, 10, ""},
+		{"2 connections", [][]int{{1, 4000}, {4000, 0}}, []bool{true, true}, nil, 10, ""},
+		{"2 connections, one stays open", [][]int{{3, 5}, {7}}, []bool{true, false}, nil, 10, ""},
+		{"3 connections", [][]int{{1}, {4000}, {2}}, []bool{true, true, false}, nil, 10, ""},
+		{"2 connections + stray data + ping", [][]int{{4}, {6}}, []bool{true, true}, []c16Msg{{0, "stray", 0}, {0, "ping", 0}}, 10, ""},
+		{"2 connections, first stays open", [][]int{{5, 6}, {1}}, []bool{false, true}, nil, 10, ""},
+		{"2 connections sharing the remote endpoint", [][]int{{3, 5}, {7}}, []bool{true, false}, nil, 10, "remote"},
+		{"2 connections sharing the remote endpoint, both end", [][]int{{2}, {4, 1}}, []bool{true, true}, nil, 10, "remote"},
 	}
 	if c.Thorough() {
-		scens = append(scens, scen{"4 connections", [][]int{{1}, {2}, {3}, {4}}, []bool{true, false, true, true}, nil, 12},
-			scen{"3 connections x 2 data", [][]int{{1, 4000}, {4000, 1}, {0, 9}}, []bool{true, true, true}, nil, 12})
+		scens = append(scens, scen{"4 connections", [][]int{{1}, {2}, {3}, {4}}, []bool{true, false, true, true}, nil, 12, ""},
+			scen{"3 connections x 2 data", [][]int{{1, 4000}, {4000, 1}, {0, 9}}, []bool{true, true, true}, nil, 12, ""})
 	}
 	for _, sc := range scens {
 		sc := sc
@@ -659,7 +662,13 @@ func runC16(c *core.Ctx) {
 							msgs = append(msgs, scripts[who][pos[who]])
 							pos[who]++
 						}
-						c16Check(c, sc.name, c16Vconns(n, sc.lens), msgs, -1)
+						vcs := c16Vconns(n, sc.lens)
+						if sc.share == "remote" {
+							for _, vc := range vcs[1:] {
+								vc.raddr = vcs[0].raddr
+							}
+						}
+						c16Check(c, sc.name, vcs, msgs, -1)
 					})
 					if c.WantSample() && pa == 0 && pb == 1 {
 						c.Sample(map[string]interface{}{"part": "session", "scenario": sc.name, "messages_per_connection": lens, "orders": "all merges"})
